@@ -76,7 +76,7 @@ def emitValue (E : Env) : Val → Nat → Str
     else if needsMultiline E items then multilineText (mlParts E items (ind + 1)) ind
     else ['['] ++ joinWith [','] (slParts E items ind) ++ [']']
   | .map pairs, ind => ['['] ++ joinWith [','] (pairParts E pairs ind) ++ [']']
-  | v, _ => E.scalar v      -- for `absent` Python raises ValueError: `emit_env_irrelevant_on_absent` shows it is never reached
+  | v, _ => E.scalar v      -- for `absent` Python raises ValueError: `C18_absent_never_rendered` shows it is never reached
 /-- the `parts` of the single-line path of `emit_value` for a `ListValue`. -/
 def slParts (E : Env) : List Val → Nat → List Str
   | [], _ => []
@@ -175,15 +175,14 @@ def metaLines (E : Env) : List (Str × Val) → List Str
     | .dict pairs => ([' ', ' '] ++ k ++ [':']) :: (nestedMetaLines E pairs ++ metaLines E rest)
     | v => ([' ', ' '] ++ k ++ [':', ':'] ++ emitValue E v 1) :: metaLines E rest
 
-/-- what `emit` appends for META: nothing for an empty dict; `"META:"` and the content lines; and — as
-the code stands (`Gen.emitChecksMetaText = false`) — one EMPTY line when the dict is non-empty but every
-value is Absent (`lines.append(emit_meta(...))` appends `""`). -/
+/-- what `emit` appends for META: nothing for an empty dict, nothing when every value is Absent (the
+text of `emit_meta` is then empty and `emit` appends it only `if meta_text:` — repo commit 7caeb79, pinned
+by `gen_emit_checks_meta_text`), else `"META:"` and the content lines. -/
 def metaBlock (E : Env) («meta» : List (Str × Val)) : List Str :=
   if «meta».isEmpty then []
   else
     let ls := metaLines E «meta»
-    if ls.isEmpty then (if Gen.emitChecksMetaText then [] else [[]])
-    else ['M', 'E', 'T', 'A', ':'] :: ls
+    if ls.isEmpty then [] else ['M', 'E', 'T', 'A', ':'] :: ls
 
 def envelope (d : Doc) : List Str :=
   (match d.front with
